@@ -21,16 +21,28 @@ def sh(cmd, **kw):
     return subprocess.run(cmd, shell=True, text=True, stdout=subprocess.PIPE, stderr=subprocess.STDOUT, **kw)
 
 
+ALIAS = {"codegen": "tensor_product", "sub": "tensor_product", "instruction": "tensor_product", "mixin": "jit", "argtools": "test",
+         "normalize_activation": "normalize", "reduce": "reduce", "linalg": "linalg", "fc": "fc", "s2grid": "s2grid", "so3grid": "so3"}
+
+
 def test_dirs(patch_text):
-    dirs = set()
+    """test files of the touched package that mention the touched module (whole package directory if none does)"""
+    sel = set()
     for f in re.findall(r"^\+\+\+ b/(\S+)", patch_text, re.M):
         parts = f.split("/")
-        if parts[0] == "e3nn" and len(parts) > 2 and (Path("/repo/tests") / parts[1]).is_dir():
-            dirs.add(f"tests/{parts[1]}")
+        stem = Path(f).stem.lstrip("_")
+        stem = ALIAS.get(stem, stem)
+        pkg = Path("/repo/tests") / parts[1] if parts[0] == "e3nn" and len(parts) > 2 else Path("/repo/tests")
+        if not pkg.is_dir():
+            pkg = Path("/repo/tests")
+        hits = [p for p in pkg.rglob("*_test.py") if stem in p.name] + [p for p in pkg.rglob("test_*.py") if stem in p.name]
+        if not hits:
+            hits = [p for p in pkg.rglob("*test*.py") if stem in p.read_text()]
+        if hits:
+            sel |= {str(p.relative_to("/repo")) for p in hits}
         else:
-            dirs.add("tests")
-    # modules used across packages: always include the package's own tests and the util tests for e3nn/util changes
-    return sorted(dirs)
+            sel.add(str(pkg.relative_to("/repo")))
+    return sorted(sel)
 
 
 def main():
@@ -40,7 +52,7 @@ def main():
         wt = f"/tmp/mutv/{sid}-confirm"
         sh(f"git -C /repo worktree remove --force {wt}")
         sh(f"mkdir -p /tmp/mutv && git -C /repo worktree add -q --detach {wt} HEAD")
-        env = dict(os.environ, PYTHONPATH=wt, PYTHONDONTWRITEBYTECODE="1")
+        env = dict(os.environ, PYTHONPATH=wt, PYTHONDONTWRITEBYTECODE="1", OMP_NUM_THREADS="2", MKL_NUM_THREADS="2")
         out = {}
         try:
             r0 = sh(f"/venv/bin/python {d / 'demo.py'}", cwd=wt, env=env, timeout=1800)
